@@ -47,9 +47,23 @@ class Target(Opaque):
         self.kind = kind
 
 
-def install_env(vm, log):
-    """Assumed contracts of the resolver's dependencies."""
+SYNTH = '''
+from krrood.adapters.json_serializer import SubclassJSONSerializer
+
+
+class Thing(SubclassJSONSerializer):
+    pass
+
+
+class SubThing(Thing):
+    pass
+'''
+
+
+def install_env(vm, log, found=None):
+    """Assumed contracts of the resolver's dependencies.  found: collects the objects the named module exposed."""
     ctx = vm.ctx
+    found = [] if found is None else found
 
     def import_module(it, fr, a, k):
         name = a[0]
@@ -81,7 +95,9 @@ def install_env(vm, log):
             ctx.inputs["attribute"] = TARGET_KINDS[k - 1]
             if TARGET_KINDS[k - 1] == "none-object":
                 return None     # a module attribute may be bound to None (e.g. builtins.None)
-            return Target(TARGET_KINDS[k - 1])
+            tgt = Target(TARGET_KINDS[k - 1])
+            found.append(tgt)
+            return tgt
         raise AssertionError("unexpected symbolic getattr")
     vm.spec.opaque_hooks["getattr_sym"] = getattr_sym
 
@@ -158,11 +174,15 @@ def make_tag(vm, kind):
     raise AssertionError(kind)
 
 
-def h_tag(kind):
+def h_tag(kind, receiver="SubclassJSONSerializer"):
+    """receiver: the class from_json is called on (the base class or any serialisable class: what is built is decided by the
+    tag alone, never by the receiver).  Whatever class-level tables the serialiser classes keep hold arbitrary entries (any
+    class that was ever created, under any name)."""
     def run(vm):
         ctx = vm.ctx
-        log = []
-        install_env(vm, log)
+        log, found = [], []
+        install_env(vm, log, found)
+        from .lib import arbitrary_class_state
         ctx.inputs["tag_kind"] = kind
         items = [("payload", 1)]
         if kind != "absent":
@@ -170,6 +190,12 @@ def h_tag(kind):
         data = make_dict(items)
         JSE = cls(vm, "JSONSerializationError")
         S = cls(vm, "SubclassJSONSerializer")
+        if receiver != "SubclassJSONSerializer":
+            vm.loader.add_module("pyvc_synth_c19", SYNTH)
+            S = vm.loader.cls("pyvc_synth_c19", receiver)
+            # the receiver's own _from_json (reached only if from_json builds the RECEIVER instead of what the tag names)
+            vm.spec.stubs["SubclassJSONSerializer._from_json"] = lambda it, a, k: ("built-the-receiver", a[0])
+        arbitrary_class_state(vm, S, lambda it: Target("serializer-subclass"))
         try:
             r = vm.call(vm._getattr(S, "from_json"), [data], {})
         except PyRaise as pr:
@@ -205,8 +231,13 @@ def h_tag(kind):
         ok = isinstance(r, tuple) and len(r) == 3 and r[0] == "handover" and (
             (r[1] == "_from_json" and r[2].kind == "serializer-subclass") or (r[1] == "registered" and r[2].kind == "registered-class"))
         ctx.check(f"from_json::returns-only-by-handover-to-a-deserialisable-class[{kind}]", z3.BoolVal(ok), detail=repr(r))
+        # ... and that class is the very object the named module exposes under the named attribute (not a class found elsewhere)
+        ok2 = ok and any(x[0] == "import" for x in log) and ctx.inputs.get("module_exists") is True and any(r[2] is t for t in found)
+        ctx.check(f"from_json::the-class-handed-over-to-is-the-attribute-of-the-imported-module[{kind}]", z3.BoolVal(bool(ok2)),
+                  detail=f"{r!r}; imports {log}; the module exposed {found}")
     covers = ["raised"] + (["returned"] if kind == "str" else [])
-    return Harness(f"tag-{kind}", run, spec=Spec(), covers=covers)
+    suffix = "" if receiver == "SubclassJSONSerializer" else f"@{receiver}"
+    return Harness(f"tag-{kind}{suffix}", run, spec=Spec(), covers=covers)
 
 
 def h_registry():
@@ -243,4 +274,4 @@ def h_canary():
 
 
 def harnesses():
-    return [h_tag(k) for k in TAG_KINDS] + [h_registry(), h_canary()]
+    return [h_tag(k) for k in TAG_KINDS] + [h_tag(k, r) for k in TAG_KINDS for r in ("Thing", "SubThing")] + [h_registry(), h_canary()]
